@@ -578,6 +578,14 @@ package generator
 //@   ensures [C10,C20,C11,C04] own-ref-map: fresh_map(result.schemaTypesByRef) && len(result.schemaTypesByRef) == 0
 //@   ensures [C10,C20] carries-arguments: result.Generator == g && result.schema == schema && result.schemaFileName == fileName && result.output == output
 
+// The table is consulted and filled by resolveRef with the reference text as written;
+// it must be the generator's own field (wherever else it lived — the output, the
+// shared Generator, a package variable — documents that spell a reference alike
+// would see each other's definitions).
+//@ func (*schemaGenerator).resolveRef
+//@   props C10 C20 C11 C04
+//@   maps-keyed-by-field Ref on-receiver
+
 // ---- following a $ref into another file (generateReferencedType): data flow ----
 // The referenced document is registered under its RESOLVED path (so that file
 // refs inside it resolve relative to it, C10), and its output file / package is
